@@ -266,6 +266,7 @@ async fn run_wire(c: &WireCase, ctx: &mut WorkerCtx) -> Outcome {
         let mut bytes: Vec<u8> = vec![];
         // expected (text, types) of every Execute in this batch, and the client's Parse / Bind messages in order
         let mut expect_exec: Vec<Stm> = vec![];
+        let mut batch_names_exceed = false;
         let mut sent_parses: Vec<Stm> = vec![];
         let mut sent_bind_rests: Vec<Vec<u8>> = vec![];
         let mut expect_error = false;
@@ -303,14 +304,14 @@ async fn run_wire(c: &WireCase, ctx: &mut WorkerCtx) -> Outcome {
                 // known finding C08/batch-exceeds-server-cache: a batch that uses more distinct statements
                 // than prepared_statements_cache_size evicts one of its own statements before it runs.
                 // Excluded from generation by construction (counted); its replay runs separately.
-                if !c.allow_known {
-                    let sa = names[i].get(NAMES[*a as usize % 3]);
-                    let sb = names[i].get(NAMES[*b as usize % 3]);
-                    if let (Some(x), Some(y)) = (sa, sb) {
-                        if x != y && c.cache < 2 {
-                            o.excluded_known += 1;
-                            continue;
-                        }
+                // (two *names* are enough: after an eviction from the pool-level cache pgcat gives a second name for the
+                // same text and types a server-side statement of its own)
+                let (na, nb) = (NAMES[*a as usize % 3], NAMES[*b as usize % 3]);
+                if names[i].contains_key(na) && names[i].contains_key(nb) && na != nb {
+                    batch_names_exceed = c.cache < 2;
+                    if !c.allow_known && batch_names_exceed {
+                        o.excluded_known += 1;
+                        continue;
                     }
                 }
                 for nmi in [*a, *b] {
@@ -396,7 +397,7 @@ async fn run_wire(c: &WireCase, ctx: &mut WorkerCtx) -> Outcome {
         if !expect_error {
             if let Some(code) = errs.iter().find(|c| ["42P05", "26000", "34000"].contains(&c.as_str())) {
                 let distinct_in_batch: std::collections::HashSet<&Stm> = expect_exec.iter().collect();
-                let exceeds = distinct_in_batch.len() > c.cache as usize;
+                let exceeds = distinct_in_batch.len() > c.cache as usize || batch_names_exceed;
                 o.fail(
                     &format!("backend-statement-error:{}{}", code, if exceeds { ":batch-exceeds-server-cache" } else { "" }),
                     format!("step {} ({:?}) of c{}: the backend raised {} (client saw {:?}); a direct connection would not have; steps {:?}", si, op, i + 1, code, client_errors, &c.steps[..=si]),
